@@ -83,4 +83,6 @@ DOnShell ==
   \A i \in DOMAIN Trs : \A S \in Inner(TreeOf(Trs[i])) :
      LET nd == NodeD(Trs[i], S) IN nd[2] \in Range2(nd[1]) /\ nd[3] \in Range2(nd[1])
 NonEmpty == Len(Trs) > 0
+\* hands every descriptor of the universe to the harness (which formulates the reaction with the real builder)
+EmitDescriptor == PrintT(<<"DESC", r>>)
 =============================================================================
